@@ -138,6 +138,11 @@ impl<'a> Interp<'a> {
     // ------------------------------------------------------------ any field type
 
     pub fn from_meta(&self, ty: &Ty, it: &Item) -> Conv {
+        // a list whose contents are not a comma-separated sequence of items cannot be read by anything:
+        // one syntax error, at the item
+        if it.garbled() {
+            return Err(vec![leaf(LeafKind::BadAttribute, Where::Item(it.id), &it.name)]);
+        }
         match ty {
             Ty::Sc(sc) => self.scalar(*sc, it),
             Ty::Opt(t) => self.from_meta(t, it).map(|v| json!({ "some": v })),
@@ -402,6 +407,11 @@ impl<'a> Interp<'a> {
                     let Kind::List(inner) = &it.kind else {
                         return Err(vec![leaf(LeafKind::BadValue, Where::Nowhere, &name)]);
                     };
+                    // (a struct variant is parsed as a struct receiver: what is wrong inside its list, a
+                    // syntax error too, is located under the variant's name)
+                    if it.garbled() {
+                        return Err(prefix(vec![leaf(LeafKind::BadAttribute, Where::Item(it.id), &it.name)], &vn));
+                    }
                     let mut st = StructState::new(fs);
                     self.struct_items(r, fs, r.allow_unknown, inner, &mut st);
                     match self.struct_finish(r, fs, st, false) {
